@@ -86,6 +86,20 @@ PROPS["C19"] = {
                   "exhaustive evaluation for the roman numerals (finite domain); bounded lock-step check for tuple batching.",
     "level_note": "Trusted: pyvc, z3, sorted(). Roman numerals: enumeration of 1..3999 (complete for the stated domain, not a VC).",
 }
+PROPS["C10"] = {
+    "units": ["contracts.c10_spanset", "contracts.c10_spanset:unit_ops", "contracts.c10_spanset:unit_relations"],
+    "bounded": True,
+    "level": "proof",
+    "trusted_base": ["pyvc VC generator (/verif/pyvc)", "z3", "Python semantics as listed in DESIGN.md §2.3",
+                     "library contracts: itertools.chain = concatenation, filtered generator expression = order-preserving filter, zip, enumerate, all"],
+    "level_text": "Every obligation is discharged for an UNINTERPRETED relation per set, so all 4x4 combinations of Exact / PartOf / Includes / "
+                  "Overlaps (and any other relation) are covered at once: the constructors keep a span iff it is not already a member of the set "
+                  "built so far (ghost provenance functions, both constructor forms, nested de-duplication loops with invariants); `in` is the "
+                  "existential scan; <=, <, ==, !=, >=, >, issubset, issuperset, isdisjoint are literally the quantified membership statements; "
+                  "A&B, A|B, A-B, A^B: result has the exact relation, every result span is a span of A or B satisfying the membership "
+                  "formula, every such span of A and of B occurs, no span twice. The four shipped relations equal their definitions over reals.",
+    "level_note": "Trusted: pyvc, z3, the library contracts named in trusted_base; span bounds are SMT reals (no NaN). copy() not under contract.",
+}
 
 # properties not claimed, with the reason (everything else not in PROPS gets the generic "not built yet" reason)
 NOT_APPLICABLE = {}
